@@ -15,6 +15,9 @@ PATHS = ["from_dicts", "from_yaml", "merge", "merge2", "ruleset", "ruleset2"]
 #   twice    the same collection object converted twice (both results are judged)
 #   appendf  a filter object (applying to no rule) appended to collection.rules before converting
 MODES = [{"resolve": r, "conv": c} for c in ("direct", "twice", "appendf", "explicit") for r in (False, True)]
+# the kind of iterable handed to merge (collections), load_ruleset (paths), from_dicts (sized kinds only; the others
+# are replaced by a tuple there): a one-shot iterable must give what a list gives
+KINDS = ["list", "gen", "tuple", "map", "iter", "dictvalues"]
 CHUNK = 24
 TITLES = "abcdefghijklmnopqrstuvwxyz"
 
@@ -187,7 +190,8 @@ def gen_orders(tier, rng):
         for path in paths:
             for part in chunks(perms):
                 for mode in (modes or [MODES[len(cases) % len(MODES)]]):
-                    cases.append({"docs": docs, "perms": part, "path": path, "mode": mode})
+                    kind = KINDS[(len(cases) // len(MODES)) % len(KINDS)]
+                    cases.append({"docs": docs, "perms": part, "path": path, "mode": dict(mode, it=kind)})
 
     F = fixed_sets()
     # deferred resolution x conversion variants: every order of the witness sets through the cheap paths in
@@ -197,6 +201,17 @@ def gen_orders(tier, rng):
         n = len(docs)
         perms = all_perms(n) if (n <= 5 or not quick) else sample_perms(rng, n, 120)
         add(docs, perms, ["from_dicts"] if (quick or not name.startswith("d22")) else CHEAP, MODES)
+    # the kind of iterable handed to merge: every order of the witness sets x every kind x resolved / deferred
+    for name in (("d22", "d22_filter", "chain3_gen") if quick else sorted(F)):
+        docs = F[name]
+        n = len(docs)
+        perms = all_perms(n) if (n <= 5 or not quick) else sample_perms(rng, n, 120)
+        if not quick and n > 5 and not name.startswith("chain3"):
+            perms = sample_perms(rng, n, 120)
+        for kind in KINDS:
+            for part in chunks(perms):
+                for r in (False, True):
+                    cases.append({"docs": docs, "perms": part, "path": "merge", "mode": {"resolve": r, "conv": "direct", "it": kind}})
     for k, (name, docs) in enumerate(sorted(F.items())):
         n = len(docs)
         main = PATHS[k % len(PATHS)]
@@ -246,7 +261,7 @@ def gen_orders_big(tier, rng):
     for _ in range(1 if tier == "quick" else 6):
         docs = random_set(rng, 70, maxdepth=3)
         for part in chunks(sample_perms(rng, len(docs), 4)):
-            cases.append({"docs": docs, "perms": part, "path": rng.choice(PATHS), "mode": rng.choice(MODES)})
+            cases.append({"docs": docs, "perms": part, "path": rng.choice(PATHS), "mode": dict(rng.choice(MODES), it=rng.choice(KINDS))})
     return cases
 
 
@@ -331,8 +346,9 @@ def mutate_orders(c, rng):
         if path != c["path"]:
             out.append(dict(c, path=path))
     for mode in MODES:
-        if mode != c.get("mode"):
-            out.append(dict(c, mode=mode))
+        out.append(dict(c, mode=dict(mode, it=(c.get("mode") or {}).get("it", "list"))))
+    for kind in KINDS:
+        out.append(dict(c, mode=dict(c.get("mode") or {}, it=kind)))
     for _ in range(6):
         out.append(dict(c, perms=sample_perms(rng, n, min(CHUNK, 24))))
     for k in range(n):   # drop one document
@@ -357,7 +373,8 @@ def stratum_orders(c, r):
         x = r["res"][0][0]
         kinds.append("ok" if "exc" not in x else x["phase"] + ":" + x["exc"])
     m = c.get("mode") or {}
-    return (c["path"] + "/" + ("resolved-at-load" if m.get("resolve", True) else "resolution-deferred") + "+" + m.get("conv", "direct")
+    return (c["path"] + ("[" + m.get("it", "list") + "]" if c["path"] != "from_yaml" else "") + "/"
+            + ("resolved-at-load" if m.get("resolve", True) else "resolution-deferred") + "+" + m.get("conv", "direct")
             + "/" + ("n<=6" if len(docs) <= 6 else "n>6") + "/" + "+".join(kinds))
 
 
@@ -405,7 +422,8 @@ PROPERTY = Property(
          "up to 70 documents) x load paths {from_dicts, from_yaml, merge of per-document collections, merge of two multi-document "
          "collections, load_ruleset one file per document / two documents per file} x {references resolved while loading, resolution "
          "deferred to Backend.convert (resolve_references=False on every loader)} x {convert right after loading, after an explicit "
-         "resolve_rule_references(), the same collection converted twice, a filter object appended to collection.rules}; filter documents "
+         "resolve_rule_references(), the same collection converted twice, a filter object appended to collection.rules} x kind of iterable "
+         "handed to merge / load_ruleset / from_dicts {list, generator, tuple, map, iterator, dict values view}; filter documents "
          "(applying to no rule) among the documents; a case = rule set x path x mode x up to 24 orders "
          "(identity order first); non-trivial = at least one correlation rule, 2 documents and 2 orders; distinct by case hash",
     assumptions=[
